@@ -6,6 +6,7 @@ import (
 
 	"github.com/failsafe-go/failsafe-go"
 	"github.com/failsafe-go/failsafe-go/common"
+	"github.com/failsafe-go/failsafe-go/internal/verifhook"
 	"github.com/failsafe-go/failsafe-go/policy"
 )
 
@@ -46,6 +47,7 @@ func (e *executor[R]) Apply(innerFn func(failsafe.Execution[R]) *common.PolicyRe
 			go func(hedgeExec policy.ExecutionInternal[R], execIdx int) {
 				result := innerFn(hedgeExec)
 				isFinalResult := int(resultCount.Add(1)) == e.maxHedges+1
+				verifhook.Yield("hedge.attempt.afterCount")
 				isCancellable := e.IsAbortable(result.Result, result.Error)
 				if (isFinalResult || isCancellable) && resultSent.CompareAndSwap(false, true) {
 					resultChan <- &execResult{result, execIdx}
@@ -67,6 +69,7 @@ func (e *executor[R]) Apply(innerFn func(failsafe.Execution[R]) *common.PolicyRe
 				}
 			}
 
+			verifhook.Yield("hedge.loop.afterWait")
 			// Return if parent execution is canceled
 			if canceled, cancelResult := parentExecution.IsCanceledWithResult(); canceled {
 				return cancelResult
@@ -74,6 +77,7 @@ func (e *executor[R]) Apply(innerFn func(failsafe.Execution[R]) *common.PolicyRe
 
 			// Return result and cancel any outstanding attempts
 			if result != nil {
+				verifhook.Yield("hedge.loop.beforeSweep")
 				for i, execution := range executions {
 					if i != result.index && execution != nil {
 						execution.Cancel(nil)
